@@ -9,11 +9,6 @@ import (
 	"encoding/hex"
 	"encoding/json"
 	"fmt"
-	"os"
-	"os/exec"
-	"path/filepath"
-	"strconv"
-	"strings"
 	"unsafe"
 
 	"github.com/cloudflare/pat-go/quicwire"
@@ -320,7 +315,7 @@ func main() {
 	r.RegisterReplay("lp", func(p json.RawMessage) *mc.Viol { var c lpCase; json.Unmarshal(p, &c); return checkLP(c) })
 	r.RegisterReplay("rt", func(p json.RawMessage) *mc.Viol { var c rtCase; json.Unmarshal(p, &c); return checkRT(c) })
 	r.RegisterReplay("fix", func(p json.RawMessage) *mc.Viol { var c fixCase; json.Unmarshal(p, &c); return checkFix(c) })
-	r.RegisterReplay("arch386", replay386)
+	r.RegisterArch386()
 	if r.IsReplay() {
 		r.DoReplay()
 	}
@@ -556,7 +551,7 @@ func main() {
 			}
 		}
 	}
-	run386(r)
+	r.RunArch386()
 	for _, w := range []int{4, 8} {
 		for l := 0; l <= 9; l++ {
 			c := fixCase{w, l}
@@ -569,117 +564,3 @@ func main() {
 	r.Finish()
 }
 
-// ---- the same check on a 32-bit build ----
-//
-// Lengths on the wire are 62-bit; the code converts them to int. ./check builds this very
-// program for GOARCH=386 as well (C19_BIN386) and the 64-bit run executes it with the same
-// tier and seed: whatever it reports is reported here, prefixed with [GOARCH=386].
-
-type archP struct {
-	Inner json.RawMessage `json:"replay_record_of_the_386_run"`
-}
-
-type innerRec struct {
-	Sig  string `json:"signature"`
-	What string `json:"what"`
-}
-
-func bin386() string {
-	if strconv.IntSize != 64 || os.Getenv("C19_IS_CHILD") != "" {
-		return ""
-	}
-	return os.Getenv("C19_BIN386")
-}
-
-func childEnv(out string) []string {
-	env := append([]string{}, os.Environ()...)
-	return append(env, "C19_IS_CHILD=1", "VERIF_OUT="+out)
-}
-
-func replay386(pj json.RawMessage) *mc.Viol {
-	bin := bin386()
-	if bin == "" {
-		return nil
-	}
-	var p archP
-	if json.Unmarshal(pj, &p) != nil {
-		return nil
-	}
-	dir, err := os.MkdirTemp("", "c19-386-")
-	if err != nil {
-		return nil
-	}
-	defer os.RemoveAll(dir)
-	f := filepath.Join(dir, "case.json")
-	if os.WriteFile(f, p.Inner, 0o644) != nil {
-		return nil
-	}
-	cmd := exec.Command(bin, "--replay", f)
-	cmd.Env = childEnv(dir)
-	out, _ := cmd.CombinedOutput()
-	if cmd.ProcessState == nil || cmd.ProcessState.ExitCode() != 1 {
-		return nil
-	}
-	var rec innerRec
-	json.Unmarshal(p.Inner, &rec)
-	for _, l := range strings.Split(string(out), "\n") {
-		if strings.HasPrefix(l, "replay: "+rec.Sig) {
-			return &mc.Viol{Sig: "[GOARCH=386] " + rec.Sig, What: strings.TrimPrefix(l, "replay: ")}
-		}
-	}
-	return nil
-}
-
-func run386(r *mc.Run) {
-	bin := bin386()
-	if strconv.IntSize != 64 || os.Getenv("C19_IS_CHILD") != "" {
-		return
-	}
-	if bin == "" {
-		r.Note("no 32-bit build of this check available (C19_BIN386 unset): the GOARCH=386 pass was not run")
-		r.NotExhaustive("GOARCH=386 pass not run")
-		return
-	}
-	dir, err := os.MkdirTemp("", "c19-386-")
-	if err != nil {
-		r.NotExhaustive("GOARCH=386 pass not run: " + err.Error())
-		return
-	}
-	defer os.RemoveAll(dir)
-	cmd := exec.Command(bin, r.Tier)
-	cmd.Env = childEnv(dir)
-	out, _ := cmd.CombinedOutput()
-	code := -1
-	if cmd.ProcessState != nil {
-		code = cmd.ProcessState.ExitCode()
-	}
-	if code != 0 && code != 1 {
-		r.Note("the GOARCH=386 build did not run (exit %d): %s", code, strings.TrimSpace(string(out)))
-		r.NotExhaustive("GOARCH=386 pass did not run on this machine")
-		return
-	}
-	var ev struct {
-		Coverage map[string]any `json:"coverage"`
-	}
-	if b, err := os.ReadFile(filepath.Join(dir, "evidence", "C19.json")); err == nil && json.Unmarshal(b, &ev) == nil {
-		r.Set("goarch_386_run", map[string]any{"evaluations": ev.Coverage["evaluations"], "distinct_nontrivial": ev.Coverage["distinct_nontrivial"], "outcomes": ev.Coverage["outcomes"], "exhaustive": ev.Coverage["exhaustive"]})
-		if ex, _ := ev.Coverage["exhaustive"].(bool); !ex {
-			r.NotExhaustive("the GOARCH=386 pass was not exhaustive")
-		}
-	} else {
-		r.NotExhaustive("the GOARCH=386 pass left no evidence")
-	}
-	files, _ := filepath.Glob(filepath.Join(dir, "replays", "C19", "*.json"))
-	for _, f := range files {
-		b, err := os.ReadFile(f)
-		if err != nil {
-			continue
-		}
-		var rec innerRec
-		if json.Unmarshal(b, &rec) != nil {
-			continue
-		}
-		r.Violation("arch386", archP{Inner: b}, &mc.Viol{Sig: "[GOARCH=386] " + rec.Sig, What: rec.What})
-	}
-	r.Case("goarch-386-pass", true, fmt.Sprintf("386-pass-exit-%d", code))
-}
